@@ -18,7 +18,12 @@ enum Kind : uint8_t { K_VAR = 0, K_CONST = 1, K_PLUS = 2, K_TIMES = 3, K_LEQ = 4
 #endif
 constexpr int MAXN = STU_MAXN;
 // symbol numbering: operators get fixed symbols, every variable / constant node its own symbol
-constexpr uint32_t SYM_PLUS = 1, SYM_TIMES = 2, SYM_LEQ = 3, SYM_OTHER = 4, SYM_VAR0 = 16, SYM_CONST0 = 32;
+// (the numbering can be compressed with -DSTU_COMPACT_SYMS for width-scaled harnesses, where every id must fit the scaled word)
+#ifdef STU_COMPACT_SYMS
+constexpr uint32_t SYM_PLUS = 1, SYM_TIMES = 2, SYM_LEQ = 3, SYM_OTHER = 4, SYM_VAR0 = 8, SYM_CONST0 = 12, SYM_REAL0 = 24;
+#else
+constexpr uint32_t SYM_PLUS = 1, SYM_TIMES = 2, SYM_LEQ = 3, SYM_OTHER = 4, SYM_VAR0 = 16, SYM_CONST0 = 32, SYM_REAL0 = 100;
+#endif
 struct Node { Kind kind; uint8_t nargs; Pterm * pt; FastRational * num; int32_t cval; };
 static Node nodes[MAXN];
 static int nnodes;
@@ -53,7 +58,7 @@ static PTRef mkConst(int32_t v) {        // small integer constant in word repre
 static void init_logic(void * raw) {
     L = static_cast<ArithLogic *>(raw);
     L->sym_Int_PLUS = SymRef{SYM_PLUS}; L->sym_Int_TIMES = SymRef{SYM_TIMES}; L->sym_Int_LEQ = SymRef{SYM_LEQ};
-    L->sym_Real_PLUS = SymRef{100}; L->sym_Real_TIMES = SymRef{101}; L->sym_Real_LEQ = SymRef{102};
+    L->sym_Real_PLUS = SymRef{SYM_REAL0}; L->sym_Real_TIMES = SymRef{SYM_REAL0 + 1}; L->sym_Real_LEQ = SymRef{SYM_REAL0 + 2};
     nnodes = 0;
 }
 }  // namespace stu
@@ -64,8 +69,8 @@ opensmt::Pterm * stu_pterm(void *, opensmt::PTRef r) {
     return stu::nodes[r.x].pt;
 }
 bool stu_isVar(void *, opensmt::SymRef s) { return s.x >= stu::SYM_VAR0 && s.x < stu::SYM_CONST0; }
-bool stu_isConstant(void *, opensmt::SymRef s) { return s.x >= stu::SYM_CONST0 && s.x < 100; }
-bool stu_yieldsSortInt(void *, opensmt::SymRef s) { return s.x != stu::SYM_LEQ && s.x < 100; }
+bool stu_isConstant(void *, opensmt::SymRef s) { return s.x >= stu::SYM_CONST0 && s.x < stu::SYM_REAL0; }
+bool stu_yieldsSortInt(void *, opensmt::SymRef s) { return s.x != stu::SYM_LEQ && s.x < stu::SYM_REAL0; }
 bool stu_false(void *, opensmt::SymRef) { return false; }
 opensmt::FastRational const * stu_getNumConst(void *, opensmt::PTRef r) {
     VASSERT(r.x < (uint32_t)stu::nnodes && stu::nodes[r.x].kind == stu::K_CONST, "getNumConst applied to a term that is not a numeric constant");
@@ -73,3 +78,4 @@ opensmt::FastRational const * stu_getNumConst(void *, opensmt::PTRef r) {
     return stu::nodes[r.x].num;
 }
 }
+extern "C" bool stu_isConstantTerm(void *, opensmt::PTRef r) { return r.x < (uint32_t)stu::nnodes && stu::nodes[r.x].kind == stu::K_CONST; }
